@@ -56,17 +56,28 @@ Proof. vm_compute. repeat split. Qed.
 (* The pattern is handed to the engine wrapped in a group whose end is anchored: "(" inside_group(P) ")\'" .  Whatever P is, the
    text written inside cannot close that group: read back, it has no ")" outside brackets, unescaped, at depth 0.  (The reading of
    groups - [closed_early] - is a model of the engine's lexer: backslash pairs, bracket expressions up to their "]".) *)
-Theorem C17_wrapper_never_closed_early : forall p, closed_early QT 0 (inside_group true p) = false.
+Theorem C17_wrapper_never_closed_early : forall p, closed_early QT 0 (inside_group true true false p) = false.
 Proof. exact inside_group_never_closes. Qed.
 Print Assumptions C17_wrapper_never_closed_early.
 
+(* The emacs syntax has no character classes (and no extended groups): a pattern without a backslash is handed over as it is -
+   "[[:digit:]]" stays the bracket expression "[[:digit:]" followed by "]" that it is there. *)
+Theorem C17_emacs_text_unchanged : forall p,
+  forallb (fun c => negb (Nat.eqb c c_bs)) p = true -> inside_group false false false p = p.
+Proof. exact emacs_text_unchanged. Qed.
+Print Assumptions C17_emacs_text_unchanged.
+
 (* "./a)|./b" ; "(a)(b)\2" ; "\10" ; "[)]" ; "x[[:punct:]^]" ; posix-basic "\(a\)\1" *)
 Example C17_wrap_witness :
-  inside_group true [46; 47; 97; 41; 124; 46; 47; 98] = [46; 47; 97; 92; 41; 124; 46; 47; 98] /\
-  inside_group true [40; 97; 41; 40; 98; 41; 92; 50] = [40; 97; 41; 40; 98; 41; 92; 51] /\
-  inside_group true [92; 49; 48] = [92; 50; 91; 48; 93] /\
-  inside_group true [91; 41; 93] = [91; 41; 93] /\
-  inside_group true [120; 91; 91; 58; 112; 117; 110; 99; 116; 58; 93; 94; 93] = [120; 91; 33; 45; 47; 58; 45; 64; 91; 45; 96; 123; 45; 126; 94; 93] /\
-  inside_group false [92; 40; 97; 92; 41; 92; 49] = [92; 40; 97; 92; 41; 92; 50] /\
-  closed_early QT 0 [46; 47; 97; 41; 124; 46; 47; 98] = true.
+  inside_group true true false [46; 47; 97; 41; 124; 46; 47; 98] = [46; 47; 97; 92; 41; 124; 46; 47; 98] /\
+  inside_group true true false [40; 97; 41; 40; 98; 41; 92; 50] = [40; 97; 41; 40; 98; 41; 92; 51] /\
+  inside_group true true false [92; 49; 48] = [92; 50; 91; 48; 93] /\
+  inside_group true true false [91; 41; 93] = [91; 41; 93] /\
+  inside_group true true false [120; 91; 91; 58; 112; 117; 110; 99; 116; 58; 93; 94; 93] = [120; 91; 33; 45; 47; 58; 45; 64; 91; 45; 96; 123; 45; 126; 94; 93] /\
+  inside_group false true false [92; 40; 97; 92; 41; 92; 49] = [92; 40; 97; 92; 41; 92; 50] /\
+  closed_early QT 0 [46; 47; 97; 41; 124; 46; 47; 98] = true /\
+  (* grep: "a<NL>b" is "a\|b", but not inside brackets nor after a backslash; emacs: "[[:digit:]]" as it is *)
+  inside_group false true true [97; 10; 98; 91; 10; 93; 92; 10] = [97; 92; 124; 98; 91; 10; 93; 92; 10] /\
+  inside_group false false false [91; 91; 58; 100; 105; 103; 105; 116; 58; 93; 93] = [91; 91; 58; 100; 105; 103; 105; 116; 58; 93; 93] /\
+  inside_group false true false [91; 91; 58; 100; 105; 103; 105; 116; 58; 93; 93] = [91; 48; 45; 57; 93].
 Proof. vm_compute. repeat split. Qed.
